@@ -485,6 +485,7 @@ def check_subscripts(ctx: Ctx) -> None:
         if not subs:
             continue
         flow = prog.flow(fi)
+        ne_states = None
         for sub in subs:
             is_unpack = id(sub) in unpacks
             base = sub if is_unpack else sub.value
@@ -575,6 +576,19 @@ def check_subscripts(ctx: Ctx) -> None:
                         if defs and all(d.kind == "assign" and isinstance(d.value, ast.Call) and isinstance(d.value.func, ast.Attribute)
                                         and d.value.func.attr == "split" and d.value.args for d in defs):
                             ok, why = True, "result of str.split(sep)"
+            if not ok and node is not None and key is not None:
+                # the forward must-analysis: appended to on every path, built element-wise from a non-empty sequence, filled by a
+                # loop that is known to run at least once ...
+                if ne_states is None:
+                    try:
+                        from ..nonempty import compute as _ne_compute
+
+                        ne_states = _ne_compute(flow, _facts, _path_key)
+                    except Exception:  # noqa: BLE001
+                        ne_states = {}
+                st_ = ne_states.get(node)
+                if st_ is not None and key in st_:
+                    ok, why = True, "non-empty on every path to this point (appends / non-empty sources / loops that run at least once)"
             if not ok and node is not None:
                 # an element of a local list of lists / strings that only ever receives non-empty elements:
                 #   if cur: groups.append(cur)  ...  groups[i][0]   /   for g in groups: g[0]
